@@ -1416,6 +1416,14 @@ func checkStrictDocumentDecoding(r *Run, p *packages.Package, reach map[*types.F
 			}
 			// a second Decode whose error is compared with io.EOF
 			ast.Inspect(fd.Body, func(x ast.Node) bool {
+				// … by a case of a switch over the error
+				if cc, isCase := x.(*ast.CaseClause); isCase && len(decodes) >= 2 {
+					for _, e := range cc.List {
+						if s, ok := ast.Unparen(e).(*ast.SelectorExpr); ok && s.Sel.Name == "EOF" {
+							strict = true
+						}
+					}
+				}
 				be, ok := x.(*ast.BinaryExpr)
 				if !ok || (be.Op != token.NEQ && be.Op != token.EQL) {
 					return true
